@@ -94,6 +94,10 @@ type plannedOp struct {
 	// further steps (clock advances, other contenders act); the contender is busy meanwhile
 	StallNth   int `json:"stall_nth,omitempty"`
 	StallSteps int `json:"stall_steps,omitempty"`
+	// cluster-store histories only: the stalled Resign is called with a deadline of 150 ms (real
+	// time; cmd/syncer.go bounds election calls). An implementation that gives the call up at its
+	// deadline leaves the request on its way: the instance is free again and goes on calling
+	StallDeadline bool `json:"stalled_call_has_a_deadline,omitempty"`
 	// at the same moment the same instance calls its election of ANOTHER shard (one process runs the
 	// elections of all its shards over one lease client): Sib = kind of that call ("" = none)
 	Sib     string `json:"sibling_shard_call,omitempty"`
@@ -123,6 +127,10 @@ type plan struct {
 	CrashAt []int      `json:"crash_at_step"` // per contender: step index from which it is silent (-1 never)
 	// one call of this history is answered after 3.4 s of real time (see plannedOp.VerySlow)
 	VerySlow bool `json:"very_slow_reply_history,omitempty"`
+	// the lease store is a Redis Cluster (one primary serving every slot): the lease client takes one
+	// pooled connection per command, so a call of an instance can overtake an earlier request of the
+	// same instance that is still on its way
+	Cluster bool       `json:"lease_store_is_a_cluster,omitempty"`
 	Steps   []planStep `json:"steps"`
 }
 
@@ -232,6 +240,7 @@ func makePlan(r *harness.Run, idx int) *plan {
 		}
 		p.Steps = append(p.Steps, st)
 	}
+	p.Cluster = idx%3 == 1
 	// late delivery of one request of a Resign call (own PRNG stream: the plans above stay as they were)
 	srng := r.Rand(fmt.Sprintf("stall-%d", idx))
 	for si := range p.Steps {
@@ -245,6 +254,7 @@ func makePlan(r *harness.Run, idx int) *plan {
 				o.StallNth = 2
 			}
 			o.StallSteps = 1 + srng.Intn(3)
+			o.StallDeadline = p.Cluster && srng.Intn(2) == 0
 			if srng.Intn(2) == 0 { // let the lease run out while the request is under way
 				p.Steps[si].AdvClass, p.Steps[si].Advance = "ttl+1", ttl+1
 			}
@@ -345,6 +355,7 @@ type opRec struct {
 
 	kind      opKind
 	lateReply bool
+	stallDl   bool   // stalled call made with a 150 ms deadline
 	key       string // lease key of the election the call went to
 	out       modelOut
 	role      cluster.ClusterRole
@@ -388,6 +399,7 @@ type history struct {
 }
 
 type stalledOp struct {
+	abandoned bool // the call returned (deadline) while its request is still held: the instance is free again
 	rec       *opRec
 	stall     *leasestore.Stall
 	done      chan struct{}
@@ -465,6 +477,11 @@ func (h *history) connect(c *contender) bool {
 	c.tag = fmt.Sprintf("%s-c%d-g%d", h.p.Case, c.idx, c.gen)
 	c.gen++
 	cfg := config.RedisConfig{Addresses: []string{h.st.Addr()}, Type: config.RedisTypeStandalone, UserName: c.tag, Password: "pw"}
+	if h.p.Cluster {
+		cfg.Type, cfg.Otype = config.RedisTypeCluster, config.RedisTypeCluster
+		cfg.ClusterOptions = &config.RedisClusterOptions{HandleMoveErr: true, HandleAskErr: true}
+		cfg.Password = c.tag // the cluster client authenticates with the password alone: it is the tag
+	}
 	cl, err := cluster.NewRedisCluster(context.Background(), cfg, h.p.TTLSec)
 	if err != nil {
 		h.r.Inconclusive("%s: cannot connect contender %d to the lease store: %v", h.p.Case, c.idx, err)
@@ -481,6 +498,17 @@ func (h *history) connect(c *contender) bool {
 
 func (h *history) sibKey() string { return h.p.Key + "sibling-shard/" }
 
+func waitUntilTrue(max time.Duration, cond func() bool) bool {
+	end := time.Now().Add(max)
+	for !cond() {
+		if time.Now().After(end) {
+			return false
+		}
+		time.Sleep(time.Millisecond)
+	}
+	return true
+}
+
 func stateOf(k leasestore.KeyState) leaseState {
 	if !k.Exists {
 		return leaseState{}
@@ -495,6 +523,7 @@ func (h *history) run() {
 		return
 	}
 	h.st = st
+	st.ClusterMode = h.p.Cluster
 	defer st.Close()
 	if h.p.TTLSec == 1 {
 		// with a 1 s lease a reply later than a third of the lease period is later than any
@@ -607,7 +636,17 @@ func (h *history) checkHolderAge(where string, si int) {
 func (h *history) burst(si int, step *planStep) bool {
 	st := h.st
 	now := st.Now()
-	if h.stalled != nil { // a contender inside a call makes no other call
+	if h.stalled != nil && !h.stalled.abandoned {
+		select {
+		case <-h.stalled.done:
+			// the call came back (its deadline fired) although its request has not been delivered
+			// yet: the instance does not wait for it, it goes on with its next calls
+			h.stalled.abandoned = true
+			h.r.Count("late_delivery_call_gave_up_at_its_deadline", 1)
+		default:
+		}
+	}
+	if h.stalled != nil && !h.stalled.abandoned { // a contender inside a call makes no other call
 		kept := make([]plannedOp, 0, len(step.Ops))
 		for _, o := range step.Ops {
 			if o.C == h.stalled.rec.C {
@@ -663,6 +702,10 @@ func (h *history) burst(si int, step *planStep) bool {
 			stall = st.StallNth(c.tag, o.StallNth)
 			stallSteps = o.StallSteps
 			recs[i].Stall = fmt.Sprintf("request %d of the call held for %d step(s)", o.StallNth, o.StallSteps)
+			recs[i].stallDl = o.StallDeadline
+			if o.StallDeadline {
+				recs[i].Stall += ", call made with a 150 ms deadline"
+			}
 		}
 	}
 	var wg sync.WaitGroup
@@ -674,6 +717,11 @@ func (h *history) burst(si int, step *planStep) bool {
 		if rec.lateReply {
 			var cancel context.CancelFunc
 			ctx, cancel = context.WithTimeout(ctx, h.st.SlowReply()/3)
+			defer cancel()
+		}
+		if rec.stallDl {
+			var cancel context.CancelFunc
+			ctx, cancel = context.WithTimeout(ctx, 150*time.Millisecond)
 			defer cancel()
 		}
 		rec.Call = h.lclock.Add(1)
@@ -748,6 +796,14 @@ func (h *history) burst(si int, step *planStep) bool {
 			rec := recs[stallIdx]
 			h.stalled = &stalledOp{rec: rec, stall: stall, done: opDone[stallIdx], mark: mark, releaseAt: si + stallSteps}
 			h.updateBelief(rec, now) // the instance has left the leader role when it calls Resign
+			if rec.stallDl {
+				// schedule shaping only: a call that honours its deadline comes back now, one that
+				// ignores it stays inside (both are fine; what follows must keep the lease exclusive)
+				select {
+				case <-opDone[stallIdx]:
+				case <-time.After(220 * time.Millisecond):
+				}
+			}
 			recs = append(recs[:stallIdx:stallIdx], recs[stallIdx+1:]...)
 			h.r.Count("late_delivery_held", 1)
 		}
@@ -796,6 +852,27 @@ func (h *history) deliverStalled(si int) bool {
 	st := h.st
 	now := st.Now()
 	init := stateOf(st.Peek(h.p.Key))
+	if so.abandoned {
+		// the request of the given-up call reaches the store now; nobody waits for its reply. Its
+		// effect is whatever the store does with it; the instance's belief is not touched (it
+		// does not learn of it) - the exclusivity clauses judge what follows
+		n0 := st.Calls()
+		so.stall.Release()
+		ok := waitUntilTrue(5*time.Second, func() bool { return st.Calls() > n0 })
+		if !ok {
+			h.r.Inconclusive("%s step %d: the late request of a given-up call was not executed within 5 s (watchdog)", h.p.Case, si)
+			h.failed = true
+			return false
+		}
+		time.Sleep(2 * time.Millisecond)
+		final := stateOf(st.Peek(h.p.Key))
+		h.r.Count("late_delivery_of_a_given_up_call", 1)
+		if init.Holder == so.rec.ID && final.Holder == "" {
+			h.r.Count("late_delivery_of_a_given_up_call_deleted_a_renewed_lease", 1)
+		}
+		h.r.Distinct(fmt.Sprintf("late-resign-given-up|%s|holder-at-delivery=%s", so.rec.Stall, map[bool]string{true: "own", false: "other-or-none"}[init.Holder == so.rec.ID]))
+		return true
+	}
 	so.stall.Release()
 	select {
 	case <-so.done:
@@ -923,6 +1000,12 @@ func holderOf(k leasestore.KeyState) string {
 func (h *history) checkOp(rec *opRec, now int64) {
 	if len(rec.entries) == 0 {
 		if !rec.out.Open {
+			if h.r.Replaying() {
+				for _, e := range h.st.LogFrom(0) {
+					fmt.Printf("NOTE   log seq=%d call=%d conn=%d tag=%q cmd=%s key=%q args=%.80v reply=%.40s\n", e.Seq, e.Call, e.Conn, e.Tag, e.Cmd, e.Key, e.Args, e.Reply)
+				}
+				fmt.Printf("NOTE   rec tag=%q key=%q\n", rec.Tag, rec.key)
+			}
 			h.r.Inconclusive("%s: %s by c%d returned %q but the store logged no request for it", h.p.Case, rec.Kind, rec.C, rec.Outcome)
 		}
 		return
